@@ -89,8 +89,18 @@ def run_case(doc, fmt, name, preexisting, fault, scratch):
     doc.serialize(ref, format=fmt)
     expected = ref.getvalue()
     if preexisting:
+        if preexisting == "same-length":
+            old = b"x" * len(expected)                   # as long as what is about to be written, nothing in common
+        elif preexisting == "tail-differs":
+            old = expected[:-1] + (b"X" if expected[-1:] != b"X" else b"Y")    # differs from it in the last byte only
+        elif preexisting == "head-differs":
+            old = (b"X" if expected[:1] != b"X" else b"Y") + expected[1:]
+        elif preexisting == "shorter":
+            old = expected[:len(expected) // 2]
+        else:
+            old = b"PREVIOUS CONTENT " * 20000           # longer than any document written over it
         with open(target_abs, "wb") as fh:
-            fh.write(b"PREVIOUS CONTENT " * 20000)      # longer than any document written over it
+            fh.write(old)
     before = snapshot(work)
     fails = []
     writes = [0]
@@ -229,6 +239,13 @@ def run(tier, seed, log, model_runs=True, enlarged=False):
                 for pre in (False, True):
                     d = ds[0] if tier == "quick" else rng.choice(ds)
                     cases.append((d, fmt, name, pre, None))
+        # a destination that already holds something close to what is written: same length, same but for the last or the
+        # first byte, a prefix of it (small and multi-block documents)
+        for name in (["out.json", "{abs}/sp ace#1.json"] if tier == "quick" else NAMES[:6] + ["{abs}/sp ace#1.json"]):
+            for fmt in fmts:
+                for pre in ("same-length", "tail-differs", "head-differs", "shorter"):
+                    for d in (ds[:2] if len(ds) > 1 else ds):
+                        cases.append((d, fmt, name, pre, None))
         # faults: at each successive write call and at the move
         fault_names = ["a#b.json", "out.json", "{abs}/sp ace#1.json", "results%20v2.json"] if tier == "quick" else NAMES[:8] + ["{abs}/sp ace#1.json"]
         for name in fault_names:
